@@ -139,7 +139,19 @@ where
     /// # Ok::<(), io::Error>(())
     /// ```
     pub fn write_record(&mut self, header: &Header, record: &Record) -> io::Result<()> {
-        write_record(&mut self.inner, header, record)
+        self.write_serialized_record(header, record)
+    }
+
+    // A record is written as a whole or not at all, i.e., a record that fails to serialize does not
+    // leave a partial line in the output.
+    fn write_serialized_record(
+        &mut self,
+        header: &Header,
+        record: &dyn crate::alignment::Record,
+    ) -> io::Result<()> {
+        let mut buf = Vec::new();
+        write_record(&mut buf, header, record)?;
+        self.inner.write_all(&buf)
     }
 }
 
@@ -156,7 +168,7 @@ where
         header: &Header,
         record: &dyn crate::alignment::Record,
     ) -> io::Result<()> {
-        write_record(&mut self.inner, header, record)
+        self.write_serialized_record(header, record)
     }
 
     fn finish(&mut self, _: &Header) -> io::Result<()> {
